@@ -114,7 +114,7 @@ func ruleS17_1(c *Ctx, id string) {
 		px.FollowHelpers = true
 		heldAtReturn, outside := "", map[ssa.Instruction]bool{}
 		px.OnCall = func(st *PXState, ci ssa.CallInstruction) {
-			switch ci.Common().StaticCallee() {
+			switch staticCallee(ci) {
 			case V.LockAcquire:
 				st.Flags["locked"] = true
 				return
@@ -1145,7 +1145,7 @@ func ruleS17_5(c *Ctx, id string) {
 			ctx := &symCtx{}
 			a := sym(ctx, argN(call, 0), Subst{}, 0)
 			sz, szOK := constInt(argN(call, 1))
-			key := FuncName(fn) + "|" + call.(*ssa.Call).Call.StaticCallee().Name() + " of an object of one inode"
+			key := FuncName(fn) + "|" + staticCallee(call).Name() + " of an object of one inode"
 			okObj := false
 			form := "unknown"
 			mk := "call:" + strings.TrimPrefix(jrnlPath, modPath+"/") + "/addr.MkAddr("
